@@ -44,11 +44,14 @@ var c16Mutations = []string{"narrow-peer", "widen-peer", "relabel-pod", "unlabel
 func matchesNothing() Sel { return Sel{MatchLabels: map[string]string{"app": "z"}} }
 
 // mutateForC16 applies 1-3 mutations, the first one chosen by quota.
-func mutateForC16(rng *rand.Rand, a *Cluster, o genOpts, first int) (*Cluster, []string) {
+func mutateForC16(rng *rand.Rand, a *Cluster, o genOpts, first int, single bool) (*Cluster, []string) {
 	b := a.clone()
 	al := &ipAlloc{nextOn: 80, nextOff: 80}
 	var ops []string
 	n := 1 + rng.Intn(3)
+	if single {
+		n = 1
+	}
 	for i := 0; i < n; i++ {
 		op := c16Mutations[rng.Intn(len(c16Mutations))]
 		if i == 0 {
@@ -224,7 +227,8 @@ func genC16Trans(rng *rand.Rand, idx int, o genOpts) *C16Trans {
 	if k%2 == 1 {
 		t.Via = "resync"
 	}
-	t.B, t.Ops = mutateForC16(rng, t.A, o, k/2)
+	// every other pair of transition cases consists of exactly one mutation
+	t.B, t.Ops = mutateForC16(rng, t.A, o, k/4, (k/2)%2 == 0)
 	return t
 }
 
@@ -539,7 +543,14 @@ func evalC16T(tc *C16Trans) *c16Result {
 				res.addViol("c16-panic-in-"+pi.Func+"-in-"+hname+"-handler", fmt.Sprintf("event %d (%s) panicked: %s", i, ev.Kind, pi.Value), pi)
 			}
 		}
-		judge("-after-events", staleXRejected())
+		// exactly one mutation, delivered: the state right after its handler(s) is what galaxy has installed for B and
+		// is judged; after several mutations the intermediate state is only observed
+		stage := "-after-events"
+		if len(tc.Ops) == 1 {
+			stage = "-after-" + tc.Ops[0] + "-event"
+			res.counters["single_mutation_events:"+tc.Ops[0]]++
+		}
+		judge(stage, staleXRejected())
 		if res.inconclusive != "" {
 			return res
 		}
